@@ -343,7 +343,8 @@ class YPPrologVisitor(prologVisitor):
 
     def visitAtom(self,ctx):
         if ctx.NUMERAL() is not None:
-            return NumeralTerm(ctx.NUMERAL().getText())
+            # normalize the spelling: Python rejects decimal literals with leading zeros
+            return NumeralTerm(str(int(ctx.NUMERAL().getText())))
         if ctx.STRING() is not None:
             us = self.unquoteString(ctx.STRING().getText())
             return Atom(us)
